@@ -71,6 +71,8 @@ func init() {
 		vC09(seed, count, extra)
 	case "c15":
 		vC15(seed, count, extra)
+	case "c11":
+		vC11(seed, count, extra)
 	case "transpile-stdin":
 		// one hex-encoded source per line -> "ok <hex go>" | "err <hex msg>"
 		sc := bufio.NewScanner(os.Stdin)
